@@ -71,6 +71,10 @@ func execC05(seg []Ev) []Ev {
 				e["opts"] = optList(bits)
 				setOpts(t, bits)
 			}
+		case "setopts": // the options of the long-lived tokenizer are changed between two inputs
+			bits = optBits(in["opts"])
+			e["opts"] = optList(bits)
+			setOpts(t, bits)
 		case "setreader":
 			input := string(toRunes(in["input"]))
 			e["input"] = cps(input)
@@ -167,6 +171,20 @@ func genC05(g *Gen) {
 				}
 				if j < 0 {
 					break
+				}
+			}
+		}
+		// (2b) options changed between two inputs of one tokenizer, and changed back
+		optL := []int{0, 127, 1 | 2 | 4 | 8, 16 | 32 | 64, 2, 64, 8}
+		for _, a := range optL {
+			for _, b := range optL {
+				if a == b {
+					continue
+				}
+				for _, x := range []string{pool[4%len(pool)], pool[len(pool)/2], tokSnippets[kind][0]} {
+					g.Run("options changed between inputs:"+kind, []Ev{{"op": "new", "kind": kind, "opts": toAnyList(optList(a))}, {"op": "buffer", "input": cps(x)},
+						{"op": "setopts", "opts": toAnyList(optList(b))}, {"op": "buffer", "input": cps(x)}, {"op": "setreader", "input": cps(x)}, {"op": "next"}, {"op": "next"},
+						{"op": "setopts", "opts": toAnyList(optList(a))}, {"op": "buffer", "input": cps(x)}, {"op": "setreader", "input": cps(x)}, {"op": "next"}, {"op": "hasnext"}, {"op": "next"}})
 				}
 			}
 		}
